@@ -11,6 +11,13 @@ Part B (crash points): a dry run records the file-system calls of create_backup 
 an interruption is injected before / after each of them, and inside each copy and inside the dump (truncated destination);
 afterwards a NEW BackupManager must not list the backup (or raise) unless every recorded file is present and complete.
 Part C: an existing backup of the same name is never overwritten.
+Part D (damaged afterwards): a COMPLETE backup is damaged - one stored copy deleted / renamed (first, middle, last recorded file, the
+deepest one in a sub-directory), a file added inside backup_root / next to it, a record entry dropped / added, the record emptied /
+removed / cut, backup_root emptied / removed.  A new BackupManager must not list a backup whose record names a copy that is not there
+(C18.crash.listed_only_if_complete) nor one whose tree holds files that the record does not name
+(C18.damaged.listed_only_if_tree_matches_record); and whoever uses the damaged backup afterwards (new manager, the manager from before
+the damage, run_remodel_restore, run_remodel) either gets an exception or every file it was to restore back byte for byte
+(C18.damaged.no_silent_partial_restore).
 """
 import builtins
 import itertools
@@ -610,7 +617,239 @@ def eval_overwrite_group(job):
     return out
 
 
-GROUP = {"history": eval_history_group, "crash": eval_crash_group, "overwrite": eval_overwrite_group}
+# ------------------------------------------------------------------------------------------------------------
+# Part D: a COMPLETE backup that is damaged afterwards (copies deleted / renamed, files added, record removed / cut)
+# ------------------------------------------------------------------------------------------------------------
+GHOST = "ghost/ghost_task_A_events.tsv"
+# what a damage does to the relation between the record and the tree (decided from the damage itself, never from the code):
+#   missing    : the record names a copy that is not there        -> the backup must not be listed
+#   unrecorded : the tree holds a file that the record does not name -> the backup must not be listed as valid
+#   no_record  : there is no (readable) record                    -> nothing can be listed
+#   none       : control, the backup is complete
+DAMAGE_CLASS = {"delete_copy": "missing", "rename_copy": "missing", "record_adds_entry": "missing", "empty_backup_root": "missing",
+                "remove_backup_root": "missing", "extra_file": "unrecorded", "record_emptied": "unrecorded",
+                "record_drops_entry": "unrecorded", "remove_record": "no_record", "truncate_record": "no_record", "none": "none"}
+CL_DAMAGED_TREE = "C18.damaged.listed_only_if_tree_matches_record"
+CL_DAMAGED_RESTORE = "C18.damaged.no_silent_partial_restore"
+
+
+def damages_for(backed):
+    """the damaged states of one complete backup: every kind at the first / middle / last recorded copy and at the copy that
+    lies deepest in a sub-directory"""
+    n = len(backed)
+    pos = {0: "first", n // 2: "middle", n - 1: "last"}
+    sub = [i for i, f in enumerate(backed) if "/" in f]
+    if sub:
+        pos.setdefault(max(sub, key=lambda i: (backed[i].count("/"), i)), "in sub-directory")
+    out = [{"damage": "none"}]
+    for i, where in sorted(pos.items()):
+        out.append({"damage": "delete_copy", "file": backed[i], "position": where})
+        out.append({"damage": "rename_copy", "file": backed[i], "position": where, "to": backed[i] + ".bak"})
+        out.append({"damage": "record_drops_entry", "file": backed[i], "position": where})
+    if n > 1:
+        out.append({"damage": "rename_copy", "file": backed[0], "position": "first", "to": "moved_" + os.path.basename(backed[0])})
+    dirs = sorted({os.path.dirname(f) for f in backed if "/" in f})
+    out.append({"damage": "extra_file", "at": "backup_root/extra_task_A_events.tsv"})
+    if dirs:
+        out.append({"damage": "extra_file", "at": "backup_root/" + dirs[-1] + "/extra_task_B_events.tsv"})
+    out.append({"damage": "extra_file", "at": "backup_root/new_dir/deeper/extra.txt"})
+    out.append({"damage": "extra_file", "at": "stray_next_to_backup_root.txt"})
+    out.append({"damage": "record_adds_entry", "file": GHOST, "position": "last"})
+    out.append({"damage": "record_adds_entry", "file": GHOST, "position": "first"})
+    out += [{"damage": "record_emptied"}, {"damage": "remove_record"}, {"damage": "truncate_record", "keep": "half"},
+            {"damage": "truncate_record", "keep": "nothing"}, {"damage": "truncate_record", "keep": "all but the last byte"},
+            {"damage": "empty_backup_root"}, {"damage": "remove_backup_root"}]
+    return out
+
+
+def apply_damage(root, dmg):
+    bdir = os.path.join(root, "derivatives", "remodel", "backups", NAME)
+    broot = os.path.join(bdir, "backup_root")
+    lock = os.path.join(bdir, "backup_lock.json")
+    kind = dmg["damage"]
+    if kind == "none":
+        return
+    if kind == "delete_copy":
+        os.remove(os.path.join(broot, dmg["file"]))
+    elif kind == "rename_copy":
+        os.rename(os.path.join(broot, dmg["file"]), os.path.join(broot, dmg["to"]))
+    elif kind == "extra_file":
+        p = os.path.join(bdir, dmg["at"])
+        os.makedirs(os.path.dirname(p), exist_ok=True)
+        with open(p, "wb") as fp:
+            fp.write(b"x\ty\nextra\t1\n")
+    elif kind == "remove_record":
+        os.remove(lock)
+    elif kind == "truncate_record":
+        with open(lock, "rb") as fp:
+            data = fp.read()
+        keep = {"half": len(data) // 2, "nothing": 0, "all but the last byte": len(data) - 1}[dmg["keep"]]
+        with open(lock, "wb") as fp:
+            fp.write(data[:keep])
+    elif kind in ("record_emptied", "record_drops_entry", "record_adds_entry"):
+        with open(lock) as fp:
+            rec = json.load(fp)
+        if kind == "record_emptied":
+            rec = {}
+        elif kind == "record_drops_entry":
+            del rec[dmg["file"]]
+        else:
+            stamp = next(iter(rec.values()), "2024-01-01 00:00:00")
+            items = list(rec.items())
+            items.insert(0 if dmg["position"] == "first" else len(items), (dmg["file"], stamp))
+            rec = dict(items)
+        with open(lock, "w") as fp:
+            json.dump(rec, fp, indent=4)
+    elif kind == "empty_backup_root":
+        shutil.rmtree(broot)
+        os.makedirs(broot)
+    elif kind == "remove_backup_root":
+        shutil.rmtree(broot)
+    else:
+        raise ValueError(kind)
+
+
+def spoil_data(root, tree, backed):
+    """the data changes after the backup: every file rewritten, the first backed-up file deleted"""
+    exp = {}
+    for f in tree:
+        exp[f] = b"SPOILED\t" + UNIVERSE[f][:5]
+        with open(os.path.join(root, f), "wb") as fp:
+            fp.write(exp[f])
+    if backed:
+        os.remove(os.path.join(root, backed[0]))
+        del exp[backed[0]]
+    return exp
+
+
+def eval_damaged_group(job):
+    from hed.tools.remodeling.backup_manager import BackupManager
+    from hed.errors.exceptions import HedFileError
+    import hed.tools.remodeling.cli.run_remodel_restore as rs
+    import hed.tools.remodeling.cli.run_remodel as rr
+    tree, selection = job["tree"], job["selection"]
+    only = job.get("only")
+    out = []
+    base = tempfile.mkdtemp(prefix="c18d_")
+    try:
+        orig = {f: UNIVERSE[f] for f in tree}
+        backed = select(tree, selection)
+        can_remodel = all(f in backed for f in tree if is_events(f)) and any(is_events(f) for f in tree)
+        model = os.path.join(base, "model.json")
+        with open(model, "w") as fp:
+            json.dump(OPS, fp)
+        tmpl = os.path.join(base, "tmpl")
+        os.makedirs(tmpl)
+        make_tree(tmpl, tree)
+        BackupManager(tmpl).create_backup([os.path.realpath(os.path.join(tmpl, f)) for f in backed], NAME)
+        for di, dmg in enumerate(damages_for(backed)):
+            if only is not None and dmg != only:
+                continue
+            inp = {"kind": "damaged", "tree": tree, "selection": selection, "damage": dmg}
+            cls = DAMAGE_CLASS[dmg["damage"]]
+            fails = []
+            root = os.path.join(base, "d%d" % di)
+            shutil.copytree(tmpl, root)
+            stale = BackupManager(root)                   # a manager that saw the complete backup
+            try:
+                apply_damage(root, dmg)
+            except Exception as e:
+                out.append((json.dumps(inp), False, [("C18.workload.injection", inp, type(e).__name__ + str(e)[:100], "damage applied")]))
+                continue
+            after_damage = read_backup(root, NAME)
+            # ---- listing by a NEW manager
+            man2, listed = None, None
+            try:
+                man2 = BackupManager(root)
+                listed = man2.get_backup(NAME)
+                verdict = "not listed" if listed is None else "listed"
+            except HedFileError as e:
+                verdict = "HedFileError:" + str(e.code)
+            except Exception as e:
+                verdict = type(e).__name__
+                fails.append(("C18.crash.listing_error_is_documented_HedFileError", inp,
+                              {"exception": type(e).__name__, "message": str(e)[:200]},
+                              "HedFileError (\"If a backup is inconsistent for any reason\") or no listing"))
+            if read_state(root) != orig or read_backup(root, NAME) != after_damage:
+                fails.append(("C18.crash.data_untouched", inp, "listing the backups changed files", "nothing written"))
+            if listed is not None:
+                bfiles = read_backup(root, NAME)
+                missing = sorted(key for key in listed if bfiles.get("backup_root/" + key) != orig.get(key))
+                unrecorded = sorted(k for k in bfiles if k != "backup_lock.json" and
+                                    (not k.startswith("backup_root/") or k[len("backup_root/"):] not in listed))
+                if cls == "none":
+                    if missing or unrecorded or sorted(listed) != sorted(backed):
+                        fails.append(("C18.create.complete", inp, {"listed": sorted(listed)}, {"listed": sorted(backed)}))
+                elif missing or cls in ("missing", "no_record"):
+                    fails.append(("C18.crash.listed_only_if_complete", inp,
+                                  {"verdict": verdict, "listed": sorted(listed), "missing_or_truncated": missing},
+                                  "not listed (or HedFileError): " + ("the record names a copy that is not there" if cls == "missing"
+                                                                      else "there is no complete record")))
+                else:
+                    fails.append((CL_DAMAGED_TREE, inp, {"verdict": verdict, "listed": sorted(listed), "files_not_in_record": unrecorded},
+                                  "not listed as valid (or HedFileError): the backup tree holds files that the record does not name"))
+            elif cls == "none":
+                fails.append(("C18.create.complete", inp, verdict, "the undamaged backup is listed"))
+            # ---- use of the damaged backup: never a partial restore in silence
+            routes = [("new_manager", lambda r: BackupManager(r).restore_backup(NAME, verbose=False)),
+                      ("cli_restore", lambda r: quiet(rs.main, [r, "-bn", NAME])),
+                      ("cli_restore_task_A", lambda r: quiet(rs.main, [r, "-bn", NAME, "-t", "A"]))]
+            if can_remodel:
+                routes.append(("cli_remodel", lambda r: quiet(rr.main, [r, model, "-bn", NAME])))
+            routes.append(("manager_from_before_the_damage", lambda r: stale.restore_backup(NAME, verbose=False)))
+            for route, fn in routes:         # one after the other in the same tree: the data is rewritten before each use
+                fails += _use_damaged(root, tree, backed, orig, dict(inp, route=route), fn, cls, route)
+                if read_backup(root, NAME) != after_damage:
+                    fails.append(("C18.backup.unchanged_by_later_actions", dict(inp, route=route), "backup directory content changed",
+                                  "unchanged"))
+                    break
+            out.append((json.dumps(dict(inp, damaged_verdict=verdict)), cls != "none", fails))
+            shutil.rmtree(root, ignore_errors=True)
+    finally:
+        shutil.rmtree(base, ignore_errors=True)
+    return out
+
+
+def _use_damaged(work, tree, backed, orig, rinp, fn, cls, route):
+    """spoil the data, use the backup through one route: either it raises, or every file it is to restore is back byte for byte"""
+    spoiled = spoil_data(work, tree, backed)
+    try:
+        fn(work)
+        err = None
+    except Exception as e:
+        err = e
+    got = read_state(work)
+    if err is not None:
+        if cls == "none":
+            return [("C18.restore.completes" if route != "cli_remodel" else "C18.remodel.completes", rinp,
+                     {"exception": type(err).__name__, "message": str(err)[:300]}, "no exception")]
+        return []                                           # refused aloud: fine
+    exp = dict(spoiled)
+    for f in backed:
+        if route == "cli_restore_task_A" and "task_A" not in os.path.basename(f):
+            if "task-A" in os.path.basename(f) and got.get(f) == orig[f]:
+                exp[f] = orig[f]                            # BIDS spelling: either way (see Part A)
+            continue
+        exp[f] = orig[f]
+    if route == "cli_remodel":
+        for f in list(exp):
+            if is_events(f):
+                got[f] = parse_tsv(got[f]) if f in got else None
+                exp[f] = oracle_remodel(orig[f])
+    if got != exp:
+        diff = sorted(f for f in set(got) | set(exp) if got.get(f) != exp.get(f))
+        label = CL_DAMAGED_RESTORE if cls != "none" else \
+            ("C18.restore.byte_identical" if route != "cli_remodel" else "C18.remodel.starts_from_backup")
+        return [(label, rinp, {"returned": "normally", "differing": {f: _show1(got.get(f)) for f in diff}},
+                 {"either": "an exception", "or": {f: _show1(exp.get(f)) for f in diff}})]
+    return []
+
+
+def _show1(v):
+    return v.decode("latin-1") if isinstance(v, bytes) else v
+
+
+GROUP = {"history": eval_history_group, "crash": eval_crash_group, "overwrite": eval_overwrite_group, "damaged": eval_damaged_group}
 
 
 def eval_job(job):
@@ -682,12 +921,14 @@ def run(w: Workload):
                                  "sequences": seqs[i:i + n]})
             jobs.append({"kind": "crash", "tree": tree, "selection": selection})
             jobs.append({"kind": "overwrite", "tree": tree, "selection": selection})
+            jobs.append({"kind": "damaged", "tree": tree, "selection": selection})
     import multiprocessing as mp
     nproc = min(14, max(1, (os.cpu_count() or 2) - 2))
     with mp.get_context("fork").Pool(nproc) as pool:
         results = pool.map(eval_job, jobs, chunksize=1)
-    counts = {"history": 0, "crash": 0, "overwrite": 0}
+    counts = {"history": 0, "crash": 0, "overwrite": 0, "damaged": 0}
     verdicts = {}
+    damaged_verdicts = {}
     for job, res in zip(jobs, results):
         for key, nontrivial, fails in res:
             counts[job["kind"]] += 1
@@ -695,6 +936,9 @@ def run(w: Workload):
             if "verdict" in d:
                 v = d["call"] + "/" + d["mode"] + " -> " + d["verdict"]
                 verdicts[v] = verdicts.get(v, 0) + 1
+            if "damaged_verdict" in d:
+                v = d["damage"]["damage"] + " -> " + d["damaged_verdict"]
+                damaged_verdicts[v] = damaged_verdicts.get(v, 0) + 1
             w.case(key=key, nontrivial=nontrivial, sample=d)
             for clause, inp, obs, exp in fails:
                 w.fail(clause, inp, obs, exp)
@@ -707,6 +951,14 @@ def run(w: Workload):
            bound="every extern call of create_backup x {before, after, truncated destination}", exhaustive=True,
            listing_after_crash=dict(sorted(verdicts.items())))
     w.part("same-name backup", cases=counts["overwrite"], bound="5 ways of asking again per tree/selection", exhaustive=True)
+    w.part("complete backup damaged afterwards", cases=counts["damaged"],
+           bound="per tree/selection: one stored copy deleted / renamed / dropped from the record at the first, middle, last recorded "
+                 "file and at the deepest one in a sub-directory; an extra file in backup_root, in an existing and in a new "
+                 "sub-directory of it, and next to backup_root; a record entry added for a copy that is not there (first / last); "
+                 "record emptied, removed, cut (half, nothing, all but the last byte); backup_root emptied / removed; + the undamaged "
+                 "control.  Each state x {new BackupManager + get_backup, restore through a new manager, through the manager from "
+                 "before the damage, run_remodel_restore (all / task A), run_remodel} after the data was rewritten and one file deleted",
+           exhaustive=True, listing_of_damaged=dict(sorted(damaged_verdicts.items())))
     w.not_covered += [
         "interruption of restore_backup or of the remodeler itself; concurrent managers (a manager whose listing is stale "
         "because another manager created the backup after it was constructed does overwrite - outside the sequential contract)",
@@ -728,12 +980,14 @@ def replay(w: Workload, case: dict):
     if kind == "history":
         job = {"kind": "history", "tree": inp["tree"], "selection": inp["selection"], "via_cli": inp["via_cli"],
                "sequences": [inp["sequence"]] if "sequence" in inp else []}
+    elif kind == "damaged":
+        job = {"kind": kind, "tree": inp["tree"], "selection": inp["selection"], "only": inp["damage"]}
     else:
         job = {"kind": kind, "tree": inp["tree"], "selection": inp["selection"]}
     for key, nontrivial, fails in eval_job(job):
         w.case(key=key, nontrivial=nontrivial)
         for clause, i2, obs, exp in fails:
-            if clause == case["clause"] and all(i2.get(k) == inp.get(k) for k in ("call_index", "mode", "how", "sequence")):
+            if clause == case["clause"] and all(i2.get(k) == inp.get(k) for k in ("call_index", "mode", "how", "sequence", "damage", "route")):
                 w.fail(clause, i2, obs, exp)
 
 
